@@ -474,6 +474,16 @@ fn cmd_hashes(args: &Args) -> i32 {
     0
 }
 
+/// premise of DESIGN.md section 3: a `TestCase` can be shared between threads (it has no
+/// interior mutability), so thread-level interleavings of iterators are observationally the
+/// same as the `next()`-granularity interleavings the simulator's scheduler decides
+#[allow(dead_code)]
+fn assert_premise() {
+    fn sync_and_send<T: Sync + Send>() {}
+    sync_and_send::<digital_test_runner::TestCase>();
+    sync_and_send::<digital_test_runner::ParsedTestCase>();
+}
+
 fn main() {
     run::install_panic_hook();
     let args = parse_args();
